@@ -473,3 +473,147 @@ pub fn run_server_case(prop: &'static str, case: &ServerCase) -> Verdict {
         .class_if(matches!(res.end, ExecEnd::Deadlock { .. }), "teardown-leftover");
     Verdict::Pass(g)
 }
+
+// ------------------------------------------------------------------------------------------
+// C08 at the edge of a receive timeout: one application thread in recv_timeout(T), others in
+// recv(); a connection's request arrives a generated number of nanoseconds before or after T.
+// Whoever is woken, the request is delivered and answered without anything else having to happen
+// on any other connection.
+
+#[derive(Clone, Debug, Serialize, Deserialize)]
+pub struct ServerEdgeCase {
+    /// the timeout of the timed receiver, in microseconds
+    pub timeout_us: u64,
+    /// when the client connects and sends, relative to the end of the timeout, in nanoseconds
+    pub offset_ns: i64,
+    /// application threads blocked in recv() beside the timed one
+    pub blocked: usize,
+    /// connections that are open and silent all along
+    pub idle_conns: usize,
+    /// the client's requests (pipelined)
+    pub reqs: usize,
+    pub tape: Vec<u8>,
+}
+
+pub fn server_edge_strategy() -> BoxedStrategy<ServerEdgeCase> {
+    (
+        prop_oneof![Just(1_000u64), Just(2_000u64), Just(50_000u64), 1_000u64..200_000],
+        prop_oneof![3 => -999_999i64..0, 1 => Just(-1_000_000i64), 1 => Just(-1i64), 1 => Just(0i64), 1 => 0i64..500_000, 1 => -5_000_000i64..-1_000_000],
+        1usize..=2,
+        0usize..=5,
+        1usize..=2,
+        tape_strategy(120),
+    )
+        .prop_map(|(timeout_us, offset_ns, blocked, idle_conns, reqs, tape)| ServerEdgeCase { timeout_us, offset_ns, blocked, idle_conns, reqs, tape })
+        .boxed()
+}
+
+pub fn run_server_edge_case(prop: &'static str, case: &ServerEdgeCase) -> Verdict {
+    let checks_done = Arc::new(AtomicBool::new(false));
+    let out: Arc<StdMutex<Out>> = Arc::new(StdMutex::new(Out::default()));
+    let phase = Arc::new(AtomicUsize::new(0));
+    let c = case.clone();
+    let (cd, o2, ph) = (checks_done.clone(), out.clone(), phase.clone());
+    let res = run_exec(&case.tape, checks_done.clone(), move || {
+        let clock = rt::begin_execution();
+        let listener = MemListener::new();
+        let server = Arc::new(Server::from_listener(listener.clone(), None).expect("server"));
+        let mut idle = vec![];
+        for _ in 0..c.idle_conns {
+            if let Ok(cl) = listener.connect() {
+                idle.push(cl);
+            }
+        }
+        let answer = |rq: tiny_http::Request| {
+            let rid = rq.url().trim_start_matches("/r").to_string();
+            let resp = Response::from_string("ok").with_header(tiny_http::Header::from_bytes(&b"X-Rid"[..], rid.as_bytes()).unwrap());
+            let _ = rq.respond(resp);
+        };
+        // the timed receiver: one call, whatever it returns
+        let s = server.clone();
+        let t_us = c.timeout_us;
+        let timed = shuttle::thread::spawn(move || {
+            if let Ok(Some(rq)) = s.recv_timeout(Duration::from_micros(t_us)) {
+                answer(rq);
+            }
+        });
+        let mut blocked = vec![];
+        for _ in 0..c.blocked {
+            let s = server.clone();
+            blocked.push(shuttle::thread::spawn(move || {
+                while let Ok(rq) = s.recv() {
+                    answer(rq);
+                }
+            }));
+        }
+        ph.store(1, Ordering::SeqCst);
+        // the client: arrives around the end of the timeout
+        let at_ns = (c.timeout_us as i64 * 1000 + c.offset_ns).max(0) as u64;
+        rt::thread::sleep(Duration::from_nanos(at_ns));
+        ph.store(2, Ordering::SeqCst);
+        match listener.connect() {
+            Ok(cl) => {
+                let mut wire = vec![];
+                for k in 0..c.reqs {
+                    wire.extend_from_slice(format!("GET /r{} HTTP/1.1\r\nHost: h\r\n\r\n", k).as_bytes());
+                }
+                cl.send(&wire);
+                let want = c.reqs;
+                let got = cl.wait_output(|o, closed| count_finals(o).0 >= want || count_finals(o).2 || closed);
+                let (n, rids, bad) = count_finals(&got);
+                let expect: Vec<String> = (0..want).map(|i| format!("200:{}", i)).collect();
+                if bad || n != want || rids != expect {
+                    o2.lock().unwrap().violations.push(("wrong-responses".into(), format!("the connection got {:?} (malformed={})", rids, bad)));
+                }
+                ph.store(3, Ordering::SeqCst);
+                cl.close_write();
+                cl.wait_output(|_, closed| closed);
+            }
+            Err(_) => o2.lock().unwrap().violations.push(("connect-refused-while-serving".into(), "connect failed although the server is alive".into())),
+        }
+        ph.store(4, Ordering::SeqCst);
+        let _ = timed.join();
+        ph.store(5, Ordering::SeqCst);
+        for _ in 0..c.blocked {
+            server.unblock();
+        }
+        for b in blocked {
+            let _ = b.join();
+        }
+        for cl in &idle {
+            cl.close_write();
+        }
+        cd.store(true, Ordering::SeqCst);
+        drop(server);
+        clock.finish();
+    });
+    let o = out.lock().unwrap().clone();
+    let ph = phase.load(Ordering::SeqCst);
+    match &res.end {
+        ExecEnd::Completed | ExecEnd::Deadlock { after_checks: true, .. } => {}
+        ExecEnd::Deadlock { after_checks: false, blocked } => {
+            let sig = match ph {
+                2 => "request-stays-queued-while-a-receiver-is-blocked",
+                5 => "unblock-did-not-release-application-thread",
+                _ => "deadlock",
+            };
+            return fail(
+                format!("{}/server-edge/{}", prop, sig),
+                format!("no runnable task in phase {} (2 = the connection waits for its answers while {} thread(s) are blocked in recv(); the timed receiver had {} us, the request came {} ns relative to its end): {}", ph, case.blocked, case.timeout_us, case.offset_ns, blocked.chars().take(300).collect::<String>()),
+            );
+        }
+        ExecEnd::Panic(m) => return fail(format!("{}/server-edge/panic", prop), m.clone()),
+        ExecEnd::StepBound => return Verdict::Inconclusive("step bound exceeded".into()),
+    }
+    if let Some((k, d)) = o.violations.first() {
+        return fail(format!("{}/server-edge/{}", prop, k), d.clone());
+    }
+    let in_last_ms = case.offset_ns < 0 && case.offset_ns > -1_000_000;
+    let mut g = if in_last_ms { Good { nontrivial: Some(res.stats.trace_hash), classes: vec![], extra_evals: 0 } } else { Good::trivial() };
+    g = g
+        .class(if in_last_ms { "arrival:last-millisecond" } else if case.offset_ns >= 0 { "arrival:after-the-timeout" } else { "arrival:earlier" })
+        .class(format!("blocked-receivers={}", case.blocked))
+        .class(format!("idle-connections={}", case.idle_conns))
+        .class_if(res.stats.preemptions > 0, "preempted");
+    Verdict::Pass(g)
+}
